@@ -21,11 +21,8 @@ func newPublishQOS1Transaction(client *Client, msgID uint16) *publishQOS1Transac
 				client.groupCtx, client.cfg.RetryDelay, client.cfg.RetryCount,
 				func(lastPkt interface{}) error {
 					tLog.Debug("Resend.")
-					// Set DUP if applicable (PUBLISH).
-					if dupPkt, ok := lastPkt.(pkts.PacketWithDUP); ok {
-						dupPkt.SetDUP(true)
-					}
-					return client.send(lastPkt.(pkts.Packet))
+					// Sets DUP if applicable (PUBLISH).
+					return client.resend(lastPkt.(pkts.Packet))
 				},
 				func() {
 					client.transactions.Delete(msgID)
